@@ -28,6 +28,24 @@ fn main() {
             let full = args[3] == "full";
             println!("{}", vx::atomic_diff::run_type(i, full));
         }
+        Some("bench") => {
+            let _orig = vx::common::mute_stderr();
+            vx::common::silence_panics();
+            let fam = checks::family(&args[2]);
+            let i: usize = args[4].parse().unwrap();
+            let t0 = std::time::Instant::now();
+            let r = fam.check_idx(&args[3], i, &drive::Mode::default());
+            println!("execs {} decisions {} in {:?}; cosim time {:?}", r.executions, r.decisions, t0.elapsed(), vx::drive::COSIM_NANOS.with(|c| std::time::Duration::from_nanos(c.get())));
+        }
+        Some("describe") => {
+            // describe <family> <set> <idx>...
+            let fam = checks::family(&args[2]);
+            println!("{} programs", fam.len(&args[3]));
+            for a in &args[4..] {
+                let i: usize = a.parse().unwrap();
+                println!("#{} {}", i, fam.describe(&args[3], i));
+            }
+        }
         Some("worker") => {
             // worker <family> <set> <mode-json> <shard> <nshards> <from> <only|-> <deadline>
             let fam = checks::family(&args[2]);
